@@ -126,7 +126,7 @@ def r1_access(ctx, prog):
 
 
 def r2_matrix(ctx, prog):
-    r = ctx.rule('C01.R2', 'the access matrix equals the PKCS#11 table on its whole domain', floor=48, engine='E1 finite-domain evaluation')
+    r = ctx.rule('C01.R2', 'the access matrix equals the PKCS#11 table on its whole domain, non-canonical CK_BBOOL values included', floor=48, engine='E1 finite-domain evaluation')
     st = {n: macro(prog, n) for n in ('CKS_RO_PUBLIC_SESSION', 'CKS_RO_USER_FUNCTIONS', 'CKS_RW_PUBLIC_SESSION', 'CKS_RW_USER_FUNCTIONS', 'CKS_RW_SO_FUNCTIONS')}
     st['<invalid state>'] = max(st.values()) + 1
     user = {'CKS_RO_USER_FUNCTIONS', 'CKS_RW_USER_FUNCTIONS'}
@@ -136,8 +136,13 @@ def r2_matrix(ctx, prog):
         ctx.analysed(f)
         ps = [param_name(f, i) for i in range(3)]
         for sname, sval in st.items():
-            for tok in (0, 1):
-                for priv in (0, 1):
+            # CK_BBOOL is a byte: every non-zero value means true - for the attribute layer, which stores it as true, and therefore for the matrix as well
+            for tok in (0, 1, 2, 0xFF):
+                for priv in (0, 1, 2, 0xFF):
+                    if (tok > 1) != (priv > 1) and not (tok > 1 or priv > 1):
+                        pass
+                    if tok > 1 and priv > 1 and tok != priv:
+                        continue
                     o = Outcomes(f, prog, cenv={ps[0]: sval, ps[1]: tok, ps[2]: priv}).go()
                     r.rows += 1
                     allowed = sname != '<invalid state>' and (not priv or sname in user)
@@ -461,6 +466,8 @@ def run(ctx):
     c09.r5_cleanup_target(ctx, prog, rule_id='C01.R9')
     c08.r1_engine(ctx, prog, rule_id='C01.R10')
     r11_operations_end_with_login(ctx, prog)
+    from rules import c05
+    c05.r7_placement_flags(ctx, prog, rule_id='C01.R12')
 
 
 MUTANTS = [
